@@ -157,6 +157,7 @@ class Unit:
         self.address_size = address_size
         self.offset = None
         self.size = None
+        self.files = []         # absolute file names (bytes) of this unit's line table: DW_AT_decl_file N names files[N-1]
 
     @property
     def partial(self):
@@ -179,6 +180,8 @@ class Forest:
         # None: abbreviation tables are stored in the order in which units first use them (what compilers
         # do); a number: stored in an order shuffled with that seed, so that units refer to them out of order
         self.table_shuffle = None
+        # .debug_line: line_table()s of the units that have files (Unit.files; their roots carry DW_AT_stmt_list)
+        self.line_section = bytearray()
 
     def all_dies(self):
         out = []
@@ -426,11 +429,28 @@ def write_elf(sections, symbols=None, machine=62, bits=64, big=False, etype=1, o
     return bytes(hdr) + bytes(body) + bytes(sh)
 
 
+def line_table(files):
+    """A DWARF 4 line number program header with FILES (absolute names, bytes) as files 1..n and an
+    empty program.  Good for every unit version: the table carries its own version."""
+    std_lengths = bytes([0, 1, 1, 1, 1, 0, 0, 0, 1, 0, 0, 1])
+    after = bytes([1, 1, 1, 0xfb, 14, 13]) + std_lengths        # min_inst, max_ops, default_is_stmt, line_base, line_range, opcode_base
+    after += b"\0"                                                # no include directories
+    for f in files:
+        after += f + b"\0" + b"\0\0\0"                            # name, dir 0, mtime 0, length 0
+    after += b"\0"
+    prog = bytes([0, 1, 1])                                       # DW_LNE_end_sequence
+    body = struct.pack("<H", 4) + struct.pack("<I", len(after)) + after + prog
+    return struct.pack("<I", len(body)) + body
+
+
 def build_file(forest, extra_sections=None, symbols=None):
     info, ab = forest.layout()
     secs = [(b".debug_info", info), (b".debug_abbrev", ab), (b".debug_str", bytes(forest.strtab))]
     if len(forest.line_strtab) > 1:
         secs.append((b".debug_line_str", bytes(forest.line_strtab)))
+    if forest.line_section:
+        secs.append((b".debug_line", bytes(forest.line_section)))
+        extra_sections = [x for x in (extra_sections or []) if x[0] != b".debug_line"]
     for s in extra_sections or []:
         secs.append(s)
     if symbols is None:
